@@ -31,6 +31,7 @@ import (
 //	final-emptypw  a server-final computed with the salted EMPTY password over this exchange's
 //	               messages (valid only for a client whose password is empty)
 //	final-blank    the server-final "v=" with an empty verifier
+//	final-error    the server-final "e=other-error" (a server-error value instead of a verifier)
 //	final-other    a well-formed server-final computed with another key
 //	final-empty    a server-final computed over empty client state (no salted password, no
 //	               auth message): HMAC(HMAC("", "Server Key"), "")
@@ -281,6 +282,10 @@ func (ad *adversary) Step(resp []byte, has bool) StepOut {
 		msg = "v=" + base64.StdEncoding.EncodeToString(hm(ad.h, sk, []byte(ad.bare+","+first+","+ad.lastFinal)))
 	case "final-blank":
 		msg = "v="
+	case "final-error":
+		// the server-error form of the server-final message (RFC 5802 section 7): it proves
+		// nothing, whatever the server sends after it
+		msg = "e=other-error"
 	case "final-other":
 		_, _, sk := ScramKeys(ad.h, "some-other-password", ad.a.Salt, ad.iter())
 		msg = "v=" + base64.StdEncoding.EncodeToString(hm(ad.h, sk, []byte(ad.bare+","+ad.first+","+ad.final)))
